@@ -146,6 +146,11 @@ class SpecMixin:
             if isinstance(a[0], ast.Call) and getattr(a[0].func, "id", "") == "elems":
                 return B(self.elems(st, cur) == self.elems(old, prev))
             return B(cur.t == prev.t)
+        if f == "monotone_true":    # a boolean field that was True on an object before the call is still True
+            fld = a[0].value
+            o = z3.Int(fresh_name("o"))
+            return B(qforall([o], z3.Implies(z3.Select(old.field(fld), o) == TRUE, z3.Select(st.field(fld), o) == TRUE),
+                             patterns=[z3.Select(st.field(fld), o)]))
         if f == "dict_unchanged":
             d = v(a[0])
             r_ = vr(d.t)
@@ -164,6 +169,13 @@ class SpecMixin:
         if f == "fs_text":
             p = vp(v(a[0]).t)
             return [Res(st, V(StrV(z3.Select(st.field("$fs_text"), p)), "str"))]
+        if f == "at_iteration_start":   # expression evaluated in the state at the beginning of the current loop iteration
+            s0 = self._iter_start.copy()
+            s0.env = {**st.env, **{k_: v_ for k_, v_ in self._iter_start.env.items() if isinstance(v_, V)}}    # locals as they were
+            return [Res(st, self.ev1(s0, a[0]))]
+        if f == "p_relative_to":
+            fn = z3.Function("p_relative_to", PathS, PathS, PathS)
+            return [Res(st, V(Val.PathV(fn(vp(v(a[0]).t), vp(v(a[1]).t))), "Path"))]
         if f == "reached_loop":     # the loop with this key was reached on this path (its iterations are summarised)
             key = a[0].value
             es = [e for e in st.trace if e.name == "loop:" + key or e.name.startswith("loop:" + key + "#")]
